@@ -12,10 +12,28 @@ Read from the live modules of the tree under check:
     The format string itself is only quoted in a comment: `!LB`, `!IB` and `>LB` are the same layout and
     generate the same definitions.
 
+Also generated (facts that are not constants, so that the hand-written lean/RpycModel/Spec/Code.lean is tied to the
+code by proof obligations and not only by the correspondence run):
+  * handlerArity: for every entry of Connection._request_handlers(), how many arguments the `_handle_*` method
+    requires and how many more it accepts (inspect.signature); parameter NAMES are not compared;
+  * callSites: every call of syncreq / asyncreq / sync_request / async_request / _async_request in the rpyc package
+    whose handler is a HANDLE_* constant (AST), as (HANDLE name, number of request arguments);
+  * Gen/Recorded.lean (section 2): what the LIVE code did at generation time on fixed probes — `Connection._box` on
+    five objects; the request each live call site of netref/protocol/helpers emitted (decoded with the independent
+    reference decoder), including keyword arguments; the reply / exception `_dispatch_request` sent for five
+    requests (built-in and custom exception, StopIteration, a keyword-argument call); how `_dispatch` classified
+    seventeen payloads (bool / float / complex message kinds, wrong arities, ...).  All probes use fixed id_packs,
+    sequence numbers from a fresh connection, and no tracebacks/versions, so the file is identical from run to run.
+
 Only data is read here.  The control flow of `_send`, `_box`, `_async_request`, `_dispatch_request`,
 `Channel.send` is modelled by hand (lean/RpycModel/Spec/Code.lean) and tied to the code by the C19
 correspondence (real frames and real conversations against the reference codec/peer and the Lean spec).
 """
+import ast
+import glob
+import inspect
+import os
+import re
 import struct
 import sys
 
@@ -95,6 +113,25 @@ def gen_proto():
     L += ["", "/-- `Connection._request_handlers()`: handler number -> name of the method that serves it -/",
           "def requestHandlers : List (Nat × String) := %s" % lean_list(
               ["(%d, %s)" % (k, lean_str(getattr(f, "__name__", "?"))) for k, f in sorted(table.items())], 4)]
+    # signatures of the handlers: (number, required arguments, optional arguments), `self` not counted
+    ar = []
+    for k, f in sorted(table.items()):
+        req = opt = 0
+        params = list(inspect.signature(f).parameters.values())[1:]
+        for prm in params:
+            if prm.kind not in (prm.POSITIONAL_ONLY, prm.POSITIONAL_OR_KEYWORD):
+                raise Inexpressible("%s takes *args/**kwargs/keyword-only parameters" % f.__name__)
+            if prm.default is prm.empty:
+                req += 1
+            else:
+                opt += 1
+        ar.append("(%d, %d, %d)" % (k, req, opt))
+    L += ["", "/-- `_handle_*` signatures: (handler number, required arguments, optional arguments) -/",
+          "def handlerArity : List (Nat × Nat × Nat) := %s" % lean_list(ar, 6)]
+    L += ["", "/-- every call site in the rpyc package that issues a request with a HANDLE_* constant (AST):",
+          "(constant, number of request arguments incl. the proxy) -/",
+          "def callSites : List (String × Nat) := %s" % lean_list(
+              ["(%s, %d)" % (lean_str(h), n) for h, n in call_sites(os.path.dirname(os.path.abspath(protocol.__file__ + "/..")))], 4)]
     # channel
     C = channel.Channel
     thr, lvl, fl = C.COMPRESSION_THRESHOLD, C.COMPRESSION_LEVEL, C.FLUSHER
@@ -125,4 +162,341 @@ def gen_proto():
     return "\n".join(L)
 
 
-SECTIONS = [("Consts.lean", gen_proto)]
+def _handler_const(node):
+    if isinstance(node, ast.Attribute) and node.attr.startswith("HANDLE_"):
+        return node.attr
+    if isinstance(node, ast.Name) and node.id.startswith("HANDLE_"):
+        return node.id
+    return None
+
+
+def call_sites(pkg_dir):
+    out = set()
+    for path in sorted(glob.glob(os.path.join(pkg_dir, "**", "*.py"), recursive=True)):
+        with open(path) as f:
+            try:
+                tree = ast.parse(f.read())
+            except SyntaxError as ex:
+                raise Inexpressible("%s does not parse: %s" % (path, ex))
+        for n in ast.walk(tree):
+            if not isinstance(n, ast.Call):
+                continue
+            fn = n.func.id if isinstance(n.func, ast.Name) else n.func.attr if isinstance(n.func, ast.Attribute) else None
+            if fn in ("syncreq", "asyncreq") and len(n.args) >= 2:
+                h, rest, base = _handler_const(n.args[1]), n.args[2:], 1
+            elif fn in ("sync_request", "async_request", "_async_request") and n.args:
+                h, rest, base = _handler_const(n.args[0]), n.args[1:], 0
+            else:
+                continue
+            if h is None:
+                continue
+            if any(isinstance(a, ast.Starred) for a in rest):
+                raise Inexpressible("%s: call of %s with %s spreads *args" % (os.path.basename(path), fn, h))
+            if fn == "_async_request" and rest:
+                if not isinstance(rest[0], ast.Tuple):
+                    raise Inexpressible("%s: _async_request(%s, <non-literal args>)" % (os.path.basename(path), h))
+                rest = rest[0].elts
+            out.add((h, base + len(rest)))
+    return sorted(out)
+
+
+# ------------------------------------------------------------------------------------------ recorded behaviour
+def lean_val(v):
+    import refcodec
+    t = type(v)
+    if v is None:
+        return ".none"
+    if v is NotImplemented:
+        return ".notImpl"
+    if v is Ellipsis:
+        return ".ellipsis"
+    if t is bool:
+        return "(.bool %s)" % ("true" if v else "false")
+    if t is int:
+        return "(.int %s)" % ("(%d)" % v if v < 0 else "%d" % v)
+    if t is float:
+        return "(.float 0x%s)" % struct.pack("!d", v).hex()
+    if t is complex:
+        return "(.complex 0x%s 0x%s)" % (struct.pack("!d", v.real).hex(), struct.pack("!d", v.imag).hex())
+    if t is bytes:
+        return "(.bytes [%s])" % ", ".join(str(b) for b in v)
+    if t is str:
+        return "(.str [%s])" % ", ".join(str(ord(c)) for c in v)
+    if t is tuple:
+        return "(.tuple [%s])" % ", ".join(lean_val(x) for x in v)
+    if t in (frozenset, refcodec.FSet):
+        return "(.fset [%s])" % ", ".join(lean_val(x) for x in v)
+    if t is slice:
+        return "(.slice %s %s %s)" % (lean_val(v.start), lean_val(v.stop), lean_val(v.step))
+    raise Inexpressible("recorded value of type %s is not a brine value" % t.__name__)
+
+
+class ProbeError(Exception):
+    """a custom (non-builtin) exception with a public attribute"""
+    code = 7
+
+
+P_ID = ("probe.P", 11, 22)
+K_ID = ("probe.K", 33, 0)
+OBJ_ID = ("probe.Obj", 44, 55)
+SVC_ID = ("probe.Svc", 66, 77)
+P_METHODS = (("meth", None), ("__call__", None), ("__getslice__", None), ("__iter__", None), ("__next__", None),
+             ("__len__", None))
+QUIET = {"include_local_traceback": False, "include_local_version": False}
+
+
+class _ProbeStream:
+    """in-memory stream; `responder(bytes written) -> bytes to deliver`"""
+    MAX_IO_CHUNK = 64000
+
+    def __init__(self, responder=None):
+        self.inbox, self.out, self._closed, self.responder = bytearray(), bytearray(), False, responder
+
+    def close(self):
+        self._closed = True
+
+    @property
+    def closed(self):
+        return self._closed
+
+    def fileno(self):
+        return 0
+
+    def write(self, data):
+        if self._closed:
+            raise EOFError("closed")
+        self.out += data
+        if self.responder:
+            self.inbox += self.responder(bytes(data))
+
+    def read(self, count):
+        if len(self.inbox) < count:
+            raise EOFError("end of stream")
+        d = bytes(self.inbox[:count])
+        del self.inbox[:count]
+        return d
+
+    def poll(self, timeout):
+        if not self.inbox:
+            raise EOFError("nothing will ever arrive")
+        return True
+
+
+def _norm(v):
+    """recorded values must not depend on addresses: ` at 0x7f..` in a repr becomes ` at 0x?`"""
+    t = type(v)
+    if t is str:
+        return re.sub(r" at 0x[0-9a-fA-F]+", " at 0x?", v)
+    if t is tuple:
+        return tuple(_norm(x) for x in v)
+    return v
+
+
+def gen_recorded():
+    import refcodec as R
+    import rpyc
+    from rpyc.core import channel, consts, netref, protocol
+    from rpyc.utils.helpers import buffiter
+    H = R.HANDLERS
+    L = ["import RpycModel.Base.Py", "namespace Rpyc.Gen.Recorded", "open Rpyc", ""]
+    errors = []
+
+    # ---- 1. the live call sites, against an auto-responder built on the reference codec
+    state = {"buf": b"", "buffiter": 0, "seen": []}
+
+    def responder(data):
+        state["buf"] += data
+        back = b""
+        while True:
+            try:
+                payload, state["buf"] = R.unframe(state["buf"])
+            except R.FormatError:
+                break
+            val = R.decode(payload, keep_order=True)
+            state["seen"].append(val)
+            if not (type(val) is tuple and len(val) == 3 and val[0] == R.MSG_REQUEST):
+                continue
+            seq, (h, boxed) = val[1], val[2]
+            if h == H["CLOSE"]:
+                continue
+            if h == H["PING"]:
+                res = R.box_value(R.unbox_plain(boxed)[0])
+            elif h == H["GETROOT"]:
+                res = R.box_remote(P_ID)
+            elif h == H["INSPECT"]:
+                res = R.box_value(P_METHODS if R.unbox_plain(boxed)[0][2] != 0 else ())
+            elif h in (H["HASH"],):
+                res = R.box_value(0)
+            elif h in (H["STR"], H["REPR"]):
+                res = R.box_value("p")
+            elif h == H["DIR"]:
+                res = R.box_value(("a",))
+            elif h == H["PICKLE"]:
+                res = R.box_value(b"")
+            elif h == H["BUFFITER"]:
+                state["buffiter"] += 1
+                res = R.box_value((1, 2) if state["buffiter"] == 1 else ())
+            elif h == H["CALLATTR"] and R.unbox_plain(boxed)[1] == "__iter__":
+                res = R.box_remote(P_ID)
+            elif h == H["CALLATTR"] and R.unbox_plain(boxed)[1] == "__len__":
+                res = R.box_value(0)
+            elif h in (H["CMP"], H["INSTANCECHECK"]):
+                res = R.box_value(False)
+            else:
+                res = R.box_value(None)
+            back += R.frame(R.encode(R.reply(seq, res)))
+        return back
+
+    st = _ProbeStream(responder)
+    conn = rpyc.VoidService()._connect(channel.Channel(st, True), dict(QUIET))
+    sites = []
+
+    def probe(name, fn):
+        before = len(state["seen"])
+        try:
+            fn()
+        except Exception as ex:  # noqa
+            errors.append("%s: %s" % (name, type(ex).__name__))
+        reqs = [v for v in state["seen"][before:] if type(v) is tuple and len(v) == 3 and v[0] == R.MSG_REQUEST]
+        sites.append((name, reqs))
+
+    hold = {}
+    probe("root", lambda: hold.__setitem__("p", conn.root))
+    p = hold.get("p")
+    if p is None:
+        raise Inexpressible("conn.root did not yield a proxy against the reference responder: %s" % errors)
+    probe("ping", lambda: conn.ping("abc"))
+    probe("getattr", lambda: p.attr)
+    probe("setattr", lambda: setattr(p, "attr", (5, b"v")))
+    probe("delattr", lambda: delattr(p, "attr"))
+    probe("call", lambda: p(3, b"x"))
+    probe("call-kw", lambda: p(3, z=None, y=(7, "k")))
+    probe("callattr-special", lambda: len(p))
+    probe("callattr-kw", lambda: type(p).meth(p, 1, k=2))
+    probe("cmp-eq", lambda: p == 1)
+    probe("cmp-lt", lambda: p < "s")
+    probe("hash", lambda: hash(p))
+    probe("str", lambda: str(p))
+    probe("repr", lambda: repr(p))
+    probe("dir", lambda: dir(p))
+    probe("ctxexit", lambda: type(p).__exit__(p, None, None, None))
+    probe("pickle", lambda: p.__reduce_ex__(2))
+    probe("oldslicing", lambda: type(p).__getslice__(p, 1, 3))
+    probe("buffiter", lambda: list(buffiter(p, 2)))
+    probe("class-proxy", lambda: hold.__setitem__("k", conn._unbox((consts.LABEL_REMOTE_REF, K_ID))))
+    if "k" in hold:
+        probe("instancecheck", lambda: isinstance(p, hold["k"]))
+        probe("del-class", lambda: hold.pop("k"))
+    obj = type("Obj", (), {"____id_pack__": OBJ_ID})()
+    probe("call-with-object", lambda: p(obj, (1, obj)))
+    # ---- 2. `_box`
+    boxes = []
+    for name, o in (("plain", (1, "a", (2.5, None))), ("tuple", (5, obj)), ("nested", (p, ("k", obj), b"")),
+                    ("object", obj), ("proxy", p)):
+        try:
+            boxes.append((name, conn._box(o)))
+        except Exception as ex:  # noqa
+            errors.append("box %s: %s" % (name, type(ex).__name__))
+    conn._remote_root = None
+    hold.clear()
+    probe("del", lambda: None)
+    before = len(state["seen"])
+    o = None
+    del p
+    sites[-1] = ("del", [v for v in state["seen"][before:] if type(v) is tuple and v[0] == R.MSG_REQUEST])
+    probe("close", conn.close)
+
+    L.append("/-- requests emitted by the live call sites of netref / protocol / helpers (probe name, payload values) -/")
+    L.append("def callSiteRequests : List (String × List Val) := [")
+    L.append(",\n".join("  (%s, [%s])" % (lean_str(n), ", ".join(lean_val(_norm(v)) for v in vs)) for n, vs in sites))
+    L.append("]")
+    L.append("")
+    L.append("/-- `Connection._box` on: a dumpable value, a tuple holding an object, a tuple holding the connection's own")
+    L.append("proxy %s, a nested tuple and a byte string, an object with id_pack %s, the proxy -/" % (P_ID, OBJ_ID))
+    L.append("def boxed : List (String × Val) := [")
+    L.append(",\n".join("  (%s, %s)" % (lean_str(n), lean_val(v)) for n, v in boxes))
+    L.append("]")
+
+    # ---- 3. what `_dispatch_request` sends back
+    class Svc(rpyc.Service):
+        ____id_pack__ = SVC_ID
+
+        def exposed_boom(self):
+            raise KeyError("k")
+
+        def exposed_custom(self):
+            raise ProbeError("m", 3)
+
+        def exposed_stop(self):
+            raise StopIteration
+
+        def exposed_kw(self, a, b=0, c=0):
+            return (a, b, c)
+    st2 = _ProbeStream()
+    svc = Svc()
+    conn2 = svc._connect(channel.Channel(st2, True), dict(QUIET))
+    root_ref = R.box_local(SVC_ID)
+    conn2._local_objects.add(SVC_ID, svc)
+    served = []
+    reqs = [R.request(100, H["PING"], R.box_value((("x", 1.5),))),
+            R.request(101, H["GETROOT"], R.box_value(())),
+            R.request(102, H["CALLATTR"], R.box_tuple([root_ref, R.box_value("boom"), R.box_value(()), R.box_value(())])),
+            R.request(103, H["CALLATTR"], R.box_tuple([root_ref, R.box_value("custom"), R.box_value(()), R.box_value(())])),
+            R.request(104, H["CALLATTR"], R.box_tuple([root_ref, R.box_value("stop"), R.box_value(()), R.box_value(())])),
+            R.request(105, H["CALLATTR"], R.box_tuple([root_ref, R.box_value("kw"), R.box_value((1,)),
+                                                       R.box_value((("c", 3), ("b", 2)))])),
+            R.request(106, H["CALL"], R.box_value((5, (), ())))]
+    for rq in reqs:
+        mark = len(st2.out)
+        try:
+            conn2._dispatch(R.encode(rq, lambda kind, c: len(c) - 1))       # a non-shortest published encoding
+            out = R.packets(bytes(st2.out[mark:]))
+            served.append((rq, [_norm(R.decode(d, keep_order=True)) for _f, _p, d in out]))
+        except Exception as ex:  # noqa
+            errors.append("serve seq %d: %s" % (rq[1], type(ex).__name__))
+    L += ["", "/-- (request fed to the live `_dispatch`, what it sent back) -/",
+          "def served : List (Val × List Val) := ["]
+    L.append(",\n".join("  (%s, [%s])" % (lean_val(rq), ", ".join(lean_val(v) for v in vs)) for rq, vs in served))
+    L.append("]")
+
+    # ---- 4. how `_dispatch` classifies payloads
+    log = []
+
+    class Rec(protocol.Connection):
+        def _dispatch_request(self, seq, raw_args):
+            log.append("request")
+
+        def _seq_request_callback(self, msg, seq, is_exc, obj):
+            log.append("exception" if is_exc else "reply")
+    conn3 = Rec(rpyc.VoidService(), channel.Channel(_ProbeStream(), True), dict(QUIET))
+    rq = (H["GETROOT"], R.box_value(()))
+    payloads = [(1, 5, rq), (True, 5, rq), (1.0, 5, rq), (complex(1, -0.0), 5, rq), (1, "s", rq), (1, 5, None),
+                (2, 6, R.box_value("v")), (2.0, 6, R.box_value("v")), (3, 7, 1), (complex(3, 0), 7, 1),
+                (4, 1, None), (0, 1, None), (False, 1, None), ("1", 1, None), (1, 2), (1, 2, 3, 4), None, b"abc",
+                (1.5, 5, rq)]
+    classified = []
+    for pv in payloads:
+        del log[:]
+        try:
+            conn3._dispatch(R.encode(pv))
+            outcome = log[0] if len(log) == 1 else "nothing" if not log else "several"
+        except Exception as ex:  # noqa
+            outcome = "err " + type(ex).__name__
+        classified.append((pv, outcome))
+    conn3._closed = True
+    L += ["", "/-- (payload value given to the live `_dispatch`, what it did: which of `_dispatch_request` /",
+          "`_seq_request_callback` it reached, or the exception it raised) -/",
+          "def classified : List (Val × String) := ["]
+    L.append(",\n".join("  (%s, %s)" % (lean_val(pv), lean_str(o)) for pv, o in classified))
+    L.append("]")
+    L += ["", "/-- probes that raised where the published behaviour is to succeed -/",
+          "def probeErrors : List String := %s" % lean_list([lean_str(e) for e in errors], 4)]
+    try:
+        conn2.close()
+    except Exception:  # noqa
+        pass
+    L += ["", "end Rpyc.Gen.Recorded", ""]
+    return "\n".join(L)
+
+
+SECTIONS = [("Consts.lean", gen_proto), ("Recorded.lean", gen_recorded)]
